@@ -258,6 +258,14 @@ func (session *ClientCommandSession) runReadLoop() {
 				}
 				if isInterleaved {
 					session.observer.OnInterleavedPacket(packet, int(channel))
+				} else {
+					// not an interleaved packet: readInterleaved has pushed the byte back. It has to be consumed here,
+					// as a message (a server may send requests or late responses at any time), or this loop
+					// reads the same byte again and again without ever returning.
+					if _, err := readHttpResponseMessage(r); err != nil {
+						loopErr = err
+						return
+					}
 				}
 			}
 		}
